@@ -6,7 +6,7 @@
    heuristics of the implementation do not occur here.  Executable, evaluated next to the model
    by the harness as the oracle.                                                              *)
 From Coq Require Import List Arith Bool String.
-From PV Require Import Base.Exn Base.Values Base.Ann Base.PyCall Spec.Conforms Model.Pedantic.
+From PV Require Import Base.Exn Base.Values Base.Ann Base.PyCall Spec.Conforms Model.CheckerCfg Model.Pedantic.
 Import ListNotations.
 Open Scope list_scope.
 
@@ -104,8 +104,8 @@ Section Spec.
 
   (* C04: a conforming keyword call: CPython accepts it, no declared parameter is passed positionally (unless the function
      declares *args), every declared parameter is annotated and every value the caller supplied conforms *)
-  (* positional values the caller wrote for declared parameters that have a name (only functions that declare *args
-     may be called like that: C05) *)
+  (* positional values the caller wrote for declared parameters that have a name (only functions that declare *args, the
+     exempt dunder methods and property setters may be called like that: C05) *)
   Definition positional_values (f : fn) (c : call) (b : binding) : list (option ann * value) :=
     flat_map (fun ns => match find_param (fst ns) (declared f), snd ns with
                         | Some p, BOne (SArg i) => map (fun v => (p_ann p, v)) (opt_list (nth_error (c_args c) i))
@@ -114,7 +114,7 @@ Section Spec.
 
   Definition c04_args_ok (f : fn) (c : call) : bool :=
     match twin_binding f c with
-    | Ok b => (named_by_keyword f b || has_varpos (full_params f))
+    | Ok b => (named_by_keyword f b || has_varpos (full_params f) || exempt f)
               && forallb (fun av => good (fst av) (snd av)) (supplied_of f c b)
               && forallb (fun av => good (fst av) (snd av)) (positional_values f c b)
     | Raise _ => false
@@ -145,6 +145,14 @@ Fixpoint has_iter (v : value) : bool :=
   | VDict kvs | VDefaultDict kvs | VOrderedDict kvs | VItemsView kvs => anyp kvs
   | _ => false
   end.
+(* no supplied value is a one-shot iterator that the check under its annotation would exhaust (guard of the K1 finding:
+   exactly an iterator passed directly under typing.Iterable[...], see Model.Pedantic.consumes_model) *)
+Definition no_iterator_consumed (cfg : checker_cfg) (f : fn) (c : call) : bool :=
+  match twin_binding f c with
+  | Ok b => forallb (fun av => match fst av with Some a => negb (consumes_model cfg a (snd av)) | None => true end) (supplied_of f c b)
+  | Raise _ => true
+  end.
+
 Definition no_oneshot_iter (f : fn) (c : call) : bool :=
   forallb (fun v => negb (has_iter v)) (c_args c)
   && forallb (fun kv => negb (has_iter (snd kv))) (c_kwargs c)
